@@ -1141,7 +1141,170 @@ def set_algebra_args(prog: Program) -> RuleResult:
     return res
 
 
+# ---------------------------------------------------------------------------
+# LOSS-WALK
+
+LAYOUT = "render.layout"
+
+
+def loss_walk(prog: Program) -> RuleResult:
+    from ..relmodel import TreeModel, Undefined
+    from ..walk import UNKNOWN, Token, Walk
+
+    res = RuleResult(
+        "LOSS-WALK",
+        "abstract execution of _add_losses over the relational tree model, for every lineage (start species, end "
+        "species strictly above it or the virtual parent of the root): exactly one virtual loss node is created in "
+        "every species strictly between the two, registered as a branch and as an anchor of THAT species; its single "
+        "child link is the node created one level below (the real gene at the first level) and sits on the side "
+        "(`left` for children[0], `right` for children[1]) the lineage comes from, the other side being None; the "
+        "function returns the topmost node (the gene itself when nothing is lost)",
+    )
+    mod = prog.module(LAYOUT)
+    fn = prog.func(LAYOUT, "_add_losses")
+    params = func_params(fn)
+    if len(params) != 4:
+        raise AnalysisError(f"_add_losses: expected (layout_state, gene, start_species, end_species), found {params}")
+    p_state, p_gene, p_start, p_end = params
+    model = TreeModel(3)
+
+    class StateMap:
+        pass
+
+    class StateRef:
+        def __init__(self, species):
+            self.species = species
+
+    class LossWalk(Walk):
+        def value(self, expr):
+            if isinstance(expr, ast.Subscript):
+                base = expr.value
+                if isinstance(base, ast.Name) and isinstance(self.env.get(base.id), StateMap):
+                    sp = self.value(expr.slice)
+                    if not isinstance(sp, int):
+                        raise Undefined("state of a species that does not exist")
+                    return StateRef(sp)
+            if isinstance(expr, ast.Call) and isinstance(expr.func, ast.Name) and not expr.args and not expr.keywords and expr.func.id[:1].isupper():
+                return Token("virtual")
+            return super().value(expr)
+
+    def run(start: int, end):
+        gene = Token("gene")
+        events = {"branch": [], "anchor": []}
+
+        def state_of(walk, node):
+            """species when `node` denotes layout_state[s] (directly or through a local)"""
+            try:
+                v = walk.value(node)
+            except (AnalysisError, Undefined):
+                return None
+            return v.species if isinstance(v, StateRef) else None
+
+        def effect(walk, st) -> bool:
+            if isinstance(st, ast.Expr) and isinstance(st.value, ast.Call) and isinstance(st.value.func, ast.Attribute):
+                call = st.value
+                tgt = call.func.value
+                if call.func.attr in ("add", "append") and isinstance(tgt, ast.Subscript) and isinstance(tgt.slice, ast.Constant):
+                    sp = state_of(walk, tgt.value)
+                    if sp is not None and tgt.slice.value == "anchor_nodes" and call.args:
+                        events["anchor"].append((sp, walk.value(call.args[0])))
+                        return True
+                    if sp is not None:
+                        return True
+            if isinstance(st, ast.Assign) and len(st.targets) == 1 and isinstance(st.targets[0], ast.Subscript):
+                tgt = st.targets[0]
+                inner = tgt.value
+                if isinstance(inner, ast.Subscript) and isinstance(inner.slice, ast.Constant) and inner.slice.value == "branches":
+                    sp = state_of(walk, inner.value)
+                    if sp is not None:
+                        events["branch"].append((sp, walk.value(tgt.slice), walk.value(st.value)))
+                        return True
+                # deeper stores (colour of an existing branch) do not concern the walk
+                depth = 0
+                cur = tgt
+                while isinstance(cur, ast.Subscript):
+                    depth += 1
+                    cur = cur.value
+                if depth >= 3:
+                    return True
+            if isinstance(st, ast.If):
+                stores = [n for n in ast.walk(st) if isinstance(n, (ast.Assign, ast.Expr, ast.AugAssign))]
+                if stores and all(
+                    isinstance(n, ast.Assign) and isinstance(n.targets[0], ast.Subscript) and isinstance(n.targets[0].slice, ast.Constant) and n.targets[0].slice.value == "color"
+                    for n in stores
+                ):
+                    return True
+            return False
+
+        env = {p_state: StateMap(), p_gene: gene, p_start: start, p_end: end}
+        walk = LossWalk(model, env, "_add_losses", effect=effect)
+        ret = walk.run(fn.body)
+        return gene, events, ret
+
+    lineages = []
+    for start in model.nodes:
+        cur = model.up(start)
+        while True:
+            lineages.append((start, cur))
+            if cur is None:
+                break
+            cur = model.up(cur)
+    verdicts: Dict[str, Optional[str]] = {"one-per-species": None, "side": None, "child-link": None, "anchor": None, "returns-top": None}
+
+    def name(sp):
+        return "the virtual parent of the root" if sp is None else f"species {sp}"
+
+    for start, end in lineages:
+        try:
+            gene, events, ret = run(start, end)
+        except Undefined as err:
+            for k in verdicts:
+                verdicts[k] = verdicts[k] or f"the walk from species {start} to {name(end)} steps outside the tree ({err})"
+            continue
+        # expected chain
+        chain = []
+        prev, cur = start, model.up(start)
+        while cur != end:
+            chain.append((cur, prev))
+            prev, cur = cur, model.up(cur)
+        where = f"lineage from species {start} up to {name(end)} ({len(chain)} loss(es) expected)"
+        got_species = [sp for sp, _k, _v in events["branch"]]
+        if got_species != [sp for sp, _p in chain]:
+            verdicts["one-per-species"] = verdicts["one-per-species"] or f"{where}: loss branches are created in species {got_species}, expected {[sp for sp, _p in chain]}"
+            continue
+        below = gene
+        for (sp, key, rec), (_sp, prev_sp) in zip(events["branch"], chain):
+            if not isinstance(rec, dict) or "left" not in rec or "right" not in rec:
+                raise AnalysisError("_add_losses: the branch record has no 'left'/'right' entries")
+            side = "left" if model.children(sp)[0] == prev_sp else "right"
+            other = "right" if side == "left" else "left"
+            if rec[side] is None or rec[other] is not None:
+                verdicts["side"] = verdicts["side"] or (
+                    f"{where}: in species {sp} the lineage comes from children[{0 if side == 'left' else 1}] but the record has "
+                    f"left={'set' if rec['left'] is not None else None}, right={'set' if rec['right'] is not None else None}"
+                )
+            linked = rec[side] if rec[side] is not None else rec[other]
+            if linked is not below:
+                verdicts["child-link"] = verdicts["child-link"] or f"{where}: the loss node of species {sp} links {linked!r}, not the node created one level below ({below!r})"
+            if (sp, key) not in [(a, b) for a, b in events["anchor"]]:
+                verdicts["anchor"] = verdicts["anchor"] or f"{where}: the loss node of species {sp} is not registered among the anchors of that species"
+            below = key
+        extra = [(sp, k) for sp, k in events["anchor"] if (sp, k) not in [(a, b) for a, b, _r in events["branch"]]]
+        if extra:
+            verdicts["anchor"] = verdicts["anchor"] or f"{where}: an anchor is registered in species {extra[0][0]} for a node that has no branch there"
+        if ret is not below:
+            verdicts["returns-top"] = verdicts["returns-top"] or f"{where}: the function returns {ret!r}, not the topmost node {below!r}"
+    for key, problem in verdicts.items():
+        construct = f"{LAYOUT}:_add_losses/walk/{key}"
+        if problem:
+            res.fail(construct, problem, mod, fn)
+        else:
+            res.ok(construct, f"{len(lineages)} lineages of the model")
+    return res
+
+
 RULES = {
+    "LOSS-WALK": loss_walk,
     "SET-ALGEBRA-ARGS": set_algebra_args,
     "NAME-AS-KEY": name_as_key,
     "KEY-GUARD": key_guard,
